@@ -282,6 +282,7 @@ class Gen:
         self.identity_calls = set()     # wrappers that do not change the bytes (X::from_le_bytes, .as_le_bytes(), ...)
         self.big = None                 # big-integer mode: dict(be=, into=, gen_params=set(), prime_params=set()) or None
         self.loop_depth = 0             # >0 while translating a `for` body: `return e` leaves the loop with (inl e)
+        self.self_calls = {}            # method name -> (translated function over the self fields, ["self.f", ..]): returns (fields, value)
         self.opt_calls = {}             # rust path -> (gallina function returning option R, type label of R): other translated functions
         self.ctor_calls = {}            # rust path of a tuple variant / constructor -> gallina constructor (applied to its arguments)
         self.str_vars = set()           # gallina names of values of type &str (lists of scalar values)
@@ -579,6 +580,11 @@ class Gen:
                     if BITS[tgt] < BITS[ta]: raise Untranslatable("narrowing .into()")
                     return k(a, tgt)
                 return self.expr(recv, ki)
+            if recv == ("id", "self") and name in self.self_calls and not args:
+                fn_, keys = self.self_calls[name]
+                gs = [self.env[k_][0] for k_ in keys]
+                v_ = self.fresh("v")
+                return "match %s %s with None => None | Some ((%s), %s) =>\n  %s end" % (fn_, " ".join(gs), ", ".join(gs), v_, k(v_, "u8"))
             if recv == ("id", "self") and name in self.helpers:
                 params, body = self.helpers[name]
                 if len(params) != len(args): raise Untranslatable("helper arity %s" % name)
